@@ -4,7 +4,7 @@
    (on top of the LinkedGraph theorems of property C04, Graph/Ops*.v). *)
 From Coq Require Import List Bool Arith.
 From GolemV Require Import Graph.Heap Graph.Ops Graph.OpsChar Evo.Mutations Evo.MutationsProofs
-  Evo.Crossovers Evo.CrossoversProofs.
+  Evo.MutationsCounts Evo.Crossovers Evo.CrossoversProofs.
 Import ListNotations.
 
 (* ---------------------------------------------------------------- the oracle decides the stated property *)
@@ -103,14 +103,22 @@ Theorem C17_reduce : forall min_arity tries h g, WF h g -> acyclic h g ->
 Proof. exact reduce_ok. Qed.
 Print Assumptions C17_reduce.
 
-(* node replacement keeps the counts.  Full statement (kept visible):
-     replace_node (h, g) v nn = Ok (h', g') -> length g' = length g /\ length (edges h' g') = length (edges h g).
-   Proved: no node and no parent link is gained - members of the result are the new object or
-   former members other than v, each keeps the number of its parents, the new object gets as many
-   as v had.  Not proved: that the final sort_nodes (ordered_subnodes_hierarchy of the only sink)
-   lists every member, i.e. that nothing is lost; the oracle clause `same_counts` checks the
-   equality on every observed call. *)
-Theorem C17_single_change_counts_partial : forall h g v nn h' g', WF h g -> acyclic h g -> In v g ->
+(* node replacement keeps the number of nodes and of parent links (the final sort_nodes loses
+   no member: a single sink of a parent-closed acyclic graph reaches every member) *)
+Theorem C17_single_change_counts : forall tries h g h' g', WF h g -> acyclic h g ->
+  (forall v nn, In (v, Some nn) tries -> In v g /\ fresh_for (h, g) nn) ->
+  run_mut (MChange tries) (h, g) = Ok (h', g') ->
+  length g' = length g /\ length (edges h' g') = length (edges h g).
+Proof. exact single_change_fn_counts. Qed.
+Print Assumptions C17_single_change_counts.
+
+Theorem C17_same_counts_reflects : forall h g h' g',
+  same_counts h g h' g' = true <-> length g' = length g /\ length (edges h' g') = length (edges h g).
+Proof. exact same_counts_iff. Qed.
+Print Assumptions C17_same_counts_reflects.
+
+(* which members and links the replacement produces *)
+Theorem C17_single_change_shape : forall h g v nn h' g', WF h g -> acyclic h g -> In v g ->
   fresh_for (h, g) nn -> replace_node (h, g) v nn = Ok (h', g') ->
   let n := length h in
   (forall x, In x g' -> x = n \/ (In x g /\ x <> v)) /\
@@ -118,7 +126,7 @@ Theorem C17_single_change_counts_partial : forall h g v nn h' g', WF h g -> acyc
   (forall x, In x g' -> x <> n -> length (pars h' x) = length (pars h x)) /\
   (In n g' -> length (pars h' n) = length (pars h v)).
 Proof. exact single_change_counts_partial. Qed.
-Print Assumptions C17_single_change_counts_partial.
+Print Assumptions C17_single_change_shape.
 
 (* ---------------------------------------------------------------- single_add_mutation (3 strategies), growth *)
 Theorem C17_single_add : forall steps h g, WF h g -> acyclic h g -> steps_ok steps (h, g) ->
